@@ -75,7 +75,11 @@ pub fn gen_behaviour(rng: &mut Rng, lats: &[u64], p_err: u64, p_panic: u64, p_ne
     let out = if r < p_err {
         Outcome::Err(rng.below(2) as u8)
     } else if r < p_err + p_panic {
-        Outcome::Panic
+        if rng.chance(1, 3) {
+            Outcome::PanicInCall
+        } else {
+            Outcome::Panic
+        }
     } else if r < p_err + p_panic + p_never {
         Outcome::Never
     } else {
